@@ -244,9 +244,65 @@ fn dispatcher_without_reply_entry_point() {
     }
 }
 
+/// found missing by seed C02h: the failing sub-message goes to a NATIVE module that writes before it
+/// fails (staking records the stake, then the bank transfer of the coins fails).  Caught by reply, it
+/// must leave no trace in that module either.
+fn failing_native_module_submessage_caught() {
+    use crate::sc::Script;
+    use crate::stk::{Cfg, Stk, DENOM};
+    use cosmwasm_std::{ReplyOn, StakingMsg};
+    let mut w = Stk::new(Cfg::default());
+    let user = w.dels[0].clone();
+    let code = w.app.store_code(sc::contract());
+    let kc = w.app.instantiate_contract(code, user.clone(), &Script::new(), &[], "k", None).unwrap();
+    let b = sym_u128("bal_k", 0, 1u128 << 40);
+    w.app.init_modules(|router, _, storage| router.bank.init_balance(storage, &kc, vec![coin(b, DENOM)]).unwrap());
+    let a = sym_u128("stake", 0, 1u128 << 41);
+    let always = choose(2) == 1;
+    let mode = if always { ReplyOn::Always } else { ReplyOn::Error };
+    let script = Script::new().write("marker", "1").sub(
+        StakingMsg::Delegate { validator: w.vals[0].clone(), amount: coin(a, DENOM) },
+        mode,
+        1,
+        Some(Script::new().write("replied", "1")),
+    );
+    let staking_before: Vec<_> = snapshot(&w.app).into_iter().filter(|(k_, _)| k_.starts_with(b"\x00\x07staking")).collect();
+    let r = match catch(|| w.app.execute_contract(user.clone(), kc.clone(), &script, &[])) {
+        Ok(r) => r,
+        Err(p) => {
+            failure("no_panic", "panic", p);
+            return;
+        }
+    };
+    if let Err(e) = &r {
+        check_native("failure_must_be_absorbed", false, || format!("{:#}", e));
+        return;
+    }
+    let covered = decide(and(lt(k(0), v(a)), le(v(a), v(b))));
+    let dels = w.app.wrap().query_all_delegations(kc.clone()).unwrap();
+    if covered {
+        witness("native_ok");
+        check_native("completed_submessage_is_kept", dels.len() == 1, || format!("{:?}", dels));
+        check("balances_reflect_exactly_the_kept_transfers", eq(v(balance(&w.app, &kc, DENOM)), sub(v(b), v(a))));
+    } else {
+        witness("native_failure_caught");
+        check_native("caught_failure_leaves_no_trace_in_the_module", dels.is_empty(), || format!("{:?}", dels));
+        let staking_after: Vec<_> = snapshot(&w.app).into_iter().filter(|(k_, _)| k_.starts_with(b"\x00\x07staking")).collect();
+        check_native("caught_failure_leaves_no_trace_in_the_module", staking_before == staking_after, || snap_diff(&staking_before, &staking_after));
+        check("balances_reflect_exactly_the_kept_transfers", eq(v(balance(&w.app, &kc, DENOM)), v(b)));
+    }
+    let got = w.app.dump_wasm_raw(&kc);
+    let mut want = vec![(b"marker".to_vec(), b"1".to_vec())];
+    if always || !covered {
+        want.push((b"replied".to_vec(), b"1".to_vec()));
+    }
+    check_native("kept_writes_are_exactly_the_specified_ones", got == want, || format!("{:?} vs {:?}", got, want));
+}
+
 pub fn scenarios(tier: &str) -> Vec<Scenario> {
     let mut v = vec![];
     v.push(Scenario::new("same_key_rewritten_inside_one_transaction", &["rewrite_ok"], rewrite_same_key));
+    v.push(Scenario::new("failing_native_module_submessage_caught_by_reply", &["native_ok", "native_failure_caught"], failing_native_module_submessage_caught));
     v.push(Scenario::new("dispatcher_without_reply_entry_point", &["no_reply_due_ok", "unhandled_reply_or_failure_propagates"], dispatcher_without_reply_entry_point));
     v.push(Scenario::new("trees_depth2_nodes3", &["tree_ok", "tree_err", "some_failure_caught"], || {
         run_tree(&Opts { max_depth: 2, max_nodes: 3, max_children: 2, vary_output: false, vary_ids: false, reply_subs: false, inst_leaves: false })
